@@ -129,6 +129,14 @@ Theorem C10_guard_strict : forall l, increasing l = true -> forall k, (S k < len
 Proof. exact increasing_spec. Qed.
 
 (* non-vacuity: a concrete region (L = 2, N = 16, N_norm = 32, wall gradient 0.3, X-point sqrt coefficient 0.05) *)
+(* the normalisation: every site that builds a spacing function for a region (getSfuncFixedSpacing for the sqrt and the monotonic form, combineSfuncs,
+   getSfuncFixedPerpSpacing -- expressions REGENERATED from the source) uses the SAME N_norm = N_norm_prefactor * ny_total, so "the requested end gradients in units
+   of the normalised index" means the same thing for every spacing method and for every contour of a region *)
+Theorem C10_normalisation : forall pref ny_total,
+  S_Nnorm_fixed_sqrt pref ny_total = pref * ny_total /\ S_Nnorm_fixed_mono pref ny_total = pref * ny_total /\
+  S_Nnorm_combine pref ny_total = pref * ny_total /\ S_Nnorm_perp pref ny_total = pref * ny_total.
+Proof. intros. unfold S_Nnorm_fixed_sqrt, S_Nnorm_fixed_mono, S_Nnorm_combine, S_Nnorm_perp. repeat split; ring. Qed.
+
 Example C10_concrete : S_sqrt2_a0_main 2 16 32 0 (3/10) (1/20) 0 16 = 2.
 Proof. apply (proj2 (a0_ends 2 16 32 (3/10) (1/20) 0 ltac:(lra) ltac:(lra))). Qed.
 
@@ -141,3 +149,4 @@ Print Assumptions C10_linear_continuations.
 Print Assumptions C10_resolution_consistent.
 Print Assumptions C10_combined_weights.
 Print Assumptions C10_guard_strict.
+Print Assumptions C10_normalisation.
